@@ -128,6 +128,11 @@ def evaluate(case):
         counts = [r for c, r in cls if c == 'count']
         none_of = [r for c, r in cls if c == 'none_of']
         no_msgs = [r for c, r in cls if c == 'no_messages']
+        if case['matcher'] == 'bad':
+            # a malformed matcher: an error line, and nothing is selected (whether an empty listing follows is presentation)
+            if listed:
+                V.append(Violation('list.content', case, dict(detail, observed=listed[:3], expected=[])))
+            return Eval(V, outcome=[case['history'], 'bad'], nontrivial=False, transitions=12)
         if not cls or cls[0][0] != 'header':
             V.append(Violation('list.header', case, dict(detail, out=o1[:3])))
         if capn is None or capn == 0:
@@ -177,7 +182,7 @@ def eval_long_history(case):
             V.append(Violation('list.long_history', case, {'listed': len(listed), 'counts': counts, 'recorded': n + 2}))
         o, e = s.cmd('list wl_registry.global ~ 3')
         listed = [x for x in o if outparse.classify(x)[0] == 'message']
-        if len(listed) != 3 or ('"i%d"' % (n - 1)).replace('"', "'") not in listed[-1]:
+        if len(listed) != 3 or ('i%d' % (n - 1)) not in listed[-1] or ('(name=%d,' % (n - 1)) not in listed[-1]:
             V.append(Violation('list.long_history', case, {'last_three': listed}))
     except Exception:
         V.append(sut.exc_violation(case))
